@@ -55,7 +55,10 @@ def verdict_of(msgs):
 
 
 def main(argv):
-    logging.disable(logging.CRITICAL)
+    import gwf
+    want = os.path.join(os.environ.get("VF_REPO", "/repo"), "src")
+    if not os.path.realpath(gwf.__file__).startswith(os.path.realpath(want) + os.sep):
+        raise SystemExit("gwf imported from %s, expected below %s" % (gwf.__file__, want))
     from vf import q
     if argv and argv[0] == "--replay":
         return replay(argv[1])
@@ -80,6 +83,24 @@ def main(argv):
     fn = qu["fn"]
     res = {"prop": prop, "query": qname, "shard": shard, "timeout": timeout}
     t0 = time.time(); c0 = time.process_time()
+    if "smt" in qu:
+        # E2 kernel: the obligation is decided by the SMT solvers directly (unbounded); fn is the concrete replay
+        r = qu["smt"](shard)
+        res["verdict"] = r["verdict"]
+        res["messages"] = [["SMT", json.dumps(r.get("detail"), default=str)[:600]]]
+        res["stats"] = {"paths": 1, "reached": 1, "skipped": 0, "choices": 0, "failed": 1 if r["verdict"] == "REFUTED" else 0}
+        res["cpu_s"] = round(time.process_time() - c0, 2)
+        res["smt"] = r.get("detail")
+        if r["verdict"] == "REFUTED":
+            res["cex"] = {"args": r["cex"], "msg": "SMT model"}
+        res["twin"] = "REACHED"
+        q.CONCRETE = True
+        res["samples"] = [{"args": a} for a in qu.get("smt_samples", [])]
+        res["validated"] = sum(1 for a in qu.get("smt_samples", []) if fn(*a) == "")
+        res["validation_mismatch"] = []
+        res["wall_s"] = round(time.time() - t0, 2)
+        print("RESULT " + json.dumps(res))
+        return 0
     # main analysis
     q.CONCRETE = False
     q.TWIN = False
